@@ -709,7 +709,9 @@ class ConfigPipeCase(PipeCase):
         if got is not None:
             try:
                 again = EnOptConfig.model_validate(got)
-                same = repr(again.model_dump(round_trip=True)) == repr(self.cfg.model_dump(round_trip=True))
+                import json
+                canon = lambda d: json.dumps(d, sort_keys=True, default=lambda o_: o_.tolist() if hasattr(o_, "tolist") else str(o_))  # noqa: E731
+                same = canon(again.model_dump(round_trip=True)) == canon(self.cfg.model_dump(round_trip=True))
             except Exception:  # noqa: BLE001
                 same = False
             props.append(("received_configuration_validates_to_the_same_configuration", SB(same)))
@@ -786,7 +788,8 @@ def build_cases(tier):
     k += 1
     cases.append(PipeCase(f"c20-{k:03d}", nitems=20, drain_every=3))
     for extra in ({}, {"optimizer": {"output_dir": "/tmp/ropt-out", "max_functions": 5}},
-                  {"optimizer": {"stdout": "out.txt", "options": {"ftol": 1e-3}}, "gradient": {"seed": (3, 4)}}):
+                  {"optimizer": {"stdout": "out.txt", "options": {"ftol": 1e-3}}, "gradient": {"seed": (3, 4)}},
+                  {"optimizer": {"options": {"maxiter": np.int64(3), "ftol": np.float64(1e-4)}}}):    # NumPy scalars as option values
         k += 1
         cases.append(ConfigPipeCase(f"c20-{k:03d}", extra))
     if tier == "thorough":
